@@ -117,6 +117,10 @@ fn run_replay(job: &Value) {
         }
         let used = replay_base(&mut out, &v, &e, &b, &pols, &phs, min_ops);
         if nsuffix > 0 { replay_reject_suffixes(&mut out, &v, &e, &b, &pols[0], &mut rng, nsuffix); }
+        // mutation-directed inputs (C01): one token of a rendered input deleted, duplicated, replaced or a stray token inserted -
+        // mostly malformed, often long, with the non-ASCII spellings in the unread tail; the call only has to return
+        let nmut = job["mutations"].as_u64().unwrap_or(0) as usize;
+        if nmut > 0 { if let Some((r, _)) = used.first() { if r.pieces.len() >= 3 { mutate_and_call(&mut out, &e, &r.pieces, &mut rng, nmut); } } }
         for (k, (r, outs)) in used.iter().enumerate() {
             if extras.iter().any(|x| x == "jux") { meta::jux(&mut out, &e, &b, r, outs); }
             if extras.iter().any(|x| x == "spellings") { meta::spellings(&mut out, &v, &e, &b, r, outs, &pols[k.min(pols.len() - 1)], &mut rng, thorough); }
@@ -163,6 +167,24 @@ fn run_cross(job: &Value) {
     }
     out.heartbeat(u64::MAX);
     write_stats(job, &mut out, true);
+}
+
+fn mutate_and_call(out: &mut Out, e: &str, pieces: &[String], rng: &mut Rng, n: usize) {
+    const STRAY: [&str; 22] = [")", "(", ",", "⌋", "⌈", "⌉", "⌊", "@", "π", "°", "²", "!", "1.5", "pi", "e", "rad", "#", "é", "\u{2003}", "^", "-", "max("];
+    let ph = call::default_placeholder(e);
+    for _ in 0..n {
+        let mut ps: Vec<String> = pieces.to_vec();
+        let i = rng.below(ps.len());
+        match rng.below(4) {
+            0 => { ps.remove(i); }
+            1 => { let x = ps[i].clone(); ps.insert(i, x); }
+            2 => { ps[i] = STRAY[rng.below(STRAY.len())].to_string(); }
+            _ => { ps.insert(i, STRAY[rng.below(STRAY.len())].to_string()); }
+        }
+        let text = ps.concat();
+        if text.chars().count() > 256 { continue; }
+        checked_call(out, e, &text, &ph, None, json!({"v": "unclaimed"}), true, &json!({"mutation_of": pieces.concat()}));
+    }
 }
 
 fn run_agg(job: &Value) {
